@@ -20,7 +20,7 @@ CLAIMS = {
         "index/slice arithmetic, full nodelist equality, blank-space tolerance",
     ),
     "C02": (
-        "kind-lattice analysis of the comparison routines; AST normal-form comparison of operator wiring; constant-folded precedence and function tables; def-use rules on filter context binding",
+        "kind-lattice analysis of the comparison routines; residual expressions of compare() per operator (partial evaluation); constant-folded precedence and function tables; def-use rules on filter context binding",
         "comparison kind discipline, node-list discipline of queries, context binding, precedence, operator wiring, standard function table",
         "truth of arbitrary expressions on arbitrary documents, regex dialect",
     ),
@@ -65,7 +65,7 @@ CLAIMS = {
         "float/huge-number literal text, whole-query equivalence on all documents",
     ),
     "C11": (
-        "delegation-shape and argument-forwarding rules; plan abstraction and sibling agreement of the four compound implementations; single-loader rule",
+        "delegation-shape and argument-forwarding rules; symbolic sequence algebra over the four compound implementations (sibling agreement); partial evaluation of match(); single-loader rule",
         "environment delegation, findall/match/query as projections of finditer, compound plan agreement, one loader",
         "json decoding itself",
     ),
@@ -105,9 +105,9 @@ CLAIMS = {
         "argparse/file-system behaviour, byte-exact output",
     ),
     "C19": (
-        "alias/taint analysis of the projection helpers, kind guard, loop-nesting rule",
-        "document not written through, non-containers produce nothing, flat projection order",
-        "structure of relative and root projections (sparse-array compaction, no extra leaves)",
+        "alias/taint analysis of the projection helpers, kind guard, loop-nesting rule, unconditional-store and non-empty-array rules",
+        "document not written through, non-containers produce nothing, flat projection order, selected values always stored, only non-empty integer-keyed levels become arrays",
+        "structure of relative and root projections as a whole (rank compaction, no extra leaves)",
     ),
     "C20": (
         "static part typing at match-construction sites, pass-through rules for pointer construction and patch builders, addressing rule in test/replace/remove",
@@ -154,8 +154,9 @@ def main() -> None:
                 },
                 "level_note": (
                     "Trusted base: CPython's ast / re._parser, the engine under /verif/sa "
-                    "(loader, constant folder, structured dataflow, kind lattice, call graph, "
-                    "escape and effect analyses, twin normaliser) and the per-rule idiom tables. "
+                    "(loader, canonicaliser and helper inliner - the rules read a canonical form of "
+                    "every function -, constant folder and partial evaluator, structured dataflow, kind "
+                    "lattice, call graph, escape and effect analyses, twin normaliser) and the per-rule idiom tables. "
                     "Assumes JSON-like values, no user subclassing/monkey-patching, documented "
                     "stdlib behaviour."
                 ),
@@ -177,7 +178,7 @@ def main() -> None:
                 "name": "sa",
                 "path": "/verif/sa",
                 "serves_properties": [c["property_id"] for c in checks],
-                "kind_free_text": "repository-specific static analyser on Python's ast: import/class/MRO resolution, constant folding, structured dataflow (may/must), kind lattice, call graph, exception-escape and write-effect analyses, sync/async twin normaliser, regex ASTs",
+                "kind_free_text": "repository-specific static analyser on Python's ast: import/class/MRO resolution, behaviour-preserving canonical form of function bodies with inlining of helpers the rules have never seen, constant folding and path-exploring partial evaluation, structured dataflow (may/must), kind lattice, call graph, exception-escape and write-effect analyses, sync/async twin normaliser, regex ASTs",
             }
         ],
         "checks": checks,
@@ -185,7 +186,9 @@ def main() -> None:
         "notes": (
             "Technique family: static analysis only. No check imports or runs repository code. "
             "Exit 0 pass, 1 VIOLATION, 2 ANALYSIS-ERROR (fail closed). Genuine defects of the "
-            "pinned tree are repaired by fix: commits in /repo or listed in known_findings.json."
+            "pinned tree are repaired by fix: commits in /repo or listed in known_findings.json. "
+            "tools/regress.py runs the three corpora kept here: the clean tree, 40+ seeded breaking changes "
+            "(seeded/), 160 behaviour-preserving refactorings (refactorings/)."
         ),
     }
     (HERE / "MANIFEST.json").write_text(json.dumps(manifest, indent=1) + "\n")
